@@ -353,6 +353,11 @@ pub fn run(tier: &str, rec: &Recorder) -> RunOutput {
 }
 
 pub fn replay(case: &str, rec: &Recorder) -> bool {
+    if case.starts_with("L:") {
+        let mut c = Counters::default();
+        crate::large::c09_large("thorough", rec, &mut c);
+        return rec.has_any();
+    }
     let pc = match parse_case(case) {
         Some(p) => p,
         None => return false,
